@@ -104,7 +104,7 @@ pub fn profile(prop: &str, thorough: bool) -> Profile {
         "C09" => Profile { name: "C09", fams: vec![Fam::Zip], nested_pct: 10, max_items: 5, big_lens: bigs, big_pct: 5, max_n: 10, ..base },
         "C10" => Profile { name: "C10", fams: vec![Fam::Chain], nested_pct: 10, max_items: 4, big_lens: bigs, big_pct: 6, max_n: 10, ..base },
         "C16" => Profile { name: "C16", fams: vec![Fam::Join, Fam::TryJoin, Fam::Merge, Fam::Zip, Fam::FGroup, Fam::SGroup], spurious: 6, err_pct: 15, big_lens: bigs, big_pct: 6, max_n: 12, ..base },
-        "C17" => Profile { name: "C17", fams: vec![Fam::Merge], conts: vec![Cont::Tuple, Cont::Array, Cont::Vec, Cont::Ext], nested_pct: 0, always_ready: true, never_pct: 10, max_items: 8, max_n: 12, ..base },
+        "C17" => Profile { name: "C17", fams: vec![Fam::Merge], conts: vec![Cont::Tuple, Cont::Array, Cont::Vec, Cont::Ext], nested_pct: 0, always_ready: true, never_pct: 10, max_items: 8, max_n: 12, big_lens: vec![24, 64, 65, 70, 129], big_pct: 4, ..base },
         "C19" => Profile { name: "C19", fams: vec![Fam::WaitF, Fam::WaitS], nested_pct: 15, spurious: 5, ..base },
         // SMALL: n <= 2, mid-poll cross fires on; SMALL3: n <= 3, longer scripts, no mid-poll fires
         "SMALL3" => Profile { name: "SMALL3", fams: CONCURRENT.iter().cloned().chain([Fam::Chain]).collect(), conts: vec![Cont::Tuple, Cont::Array, Cont::Vec], max_n: 3, nested_pct: 0, never_pct: 0, spurious: 1, midfire_pct: 0, stale_pct: 0, reuse_waker_pct: 0, max_items: 2, max_pend: 2, small: true, ..base },
